@@ -662,4 +662,754 @@ example : PlainStore {} := ⟨by simp, by simp⟩
 #print axioms evalFlag_store
 #print axioms evaluate_transparent
 
+/-! ## Strengthened statements (theorem audit) -/
+
+/-! ### A. `FormEquiv`: the same configuration, every table independently absent or built
+
+A clause has two tables, a target / segment target one key set, a segment two key sets of its own.
+`…FormOK` says that EACH table is either absent (`none`, a hand-built value) or exactly what
+`preprocessClause` / `preprocessStringSet` build from the exported fields of the item that carries
+it.  `strip…` removes every table.  Two values are `FormEquiv` when both are `FormOK` and they are
+the same value once the tables are removed: the same configuration, each table independently
+present or absent — in particular each flag and each segment of a store independently hand-built,
+decoded, built by a builder or explicitly preprocessed. -/
+
+/-- A key-set table is absent or what `preprocessStringSet` builds. -/
+def KeySetOK (vals : List String) (tbl : Option (List String)) : Prop :=
+  tbl = none ∨ tbl = preprocessStringSet vals
+
+/-- Each of the two tables of a clause is absent or exactly what `preprocessClause` builds. -/
+def ClauseFormOK (rx : RegexOracle) (c : Clause) : Prop :=
+  (c.pre.values = none ∨ c.pre.values = (preprocessClause rx c).values) ∧
+  (c.pre.valuesMap = none ∨ c.pre.valuesMap = (preprocessClause rx c).valuesMap)
+
+/-- Every table of a flag is absent or as `PreprocessFlag` builds it (Go never sets the key set of a
+context target; the model allows it to be present as well). -/
+def FlagFormOK (rx : RegexOracle) (f : Flag) : Prop :=
+  (∀ t ∈ f.targets, KeySetOK t.values t.pre) ∧
+  (∀ t ∈ f.contextTargets, KeySetOK t.values t.pre) ∧
+  (∀ r ∈ f.rules, ∀ c ∈ r.clauses, ClauseFormOK rx c)
+
+/-- Every table of a segment is absent or as `PreprocessSegment` builds it. -/
+def SegmentFormOK (rx : RegexOracle) (s : Segment) : Prop :=
+  KeySetOK s.included s.pre.includeMap ∧ KeySetOK s.excluded s.pre.excludeMap ∧
+  (∀ t ∈ s.includedContexts, KeySetOK t.values t.pre) ∧
+  (∀ t ∈ s.excludedContexts, KeySetOK t.values t.pre) ∧
+  (∀ r ∈ s.rules, ∀ c ∈ r.clauses, ClauseFormOK rx c)
+
+def StoreFormOK (rx : RegexOracle) (st : Store) : Prop :=
+  (∀ f ∈ st.flags.map (·.2), FlagFormOK rx f) ∧ (∀ s ∈ st.segments.map (·.2), SegmentFormOK rx s)
+
+/-- A flag with every lookup table removed. -/
+def stripFlag (f : Flag) : Flag :=
+  { f with
+    targets := f.targets.map fun t => { t with pre := none }
+    contextTargets := f.contextTargets.map fun t => { t with pre := none }
+    rules := f.rules.map fun r =>
+      { r with clauses := r.clauses.map fun c => { c with pre := {} } } }
+
+/-- The same store (same lookup keys, same order) with every table of every item removed. -/
+def stripStore (st : Store) : Store :=
+  { flags := st.flags.map fun e => (e.1, stripFlag e.2),
+    segments := st.segments.map fun e => (e.1, stripSegment e.2) }
+
+/-- The same clause, tables independently absent or built. -/
+def ClauseFormEquiv (rx : RegexOracle) (c c' : Clause) : Prop :=
+  ClauseFormOK rx c ∧ ClauseFormOK rx c' ∧ { c with pre := {} } = { c' with pre := {} }
+
+/-- The same flag, every table independently absent or built. -/
+def FlagFormEquiv (rx : RegexOracle) (f f' : Flag) : Prop :=
+  FlagFormOK rx f ∧ FlagFormOK rx f' ∧ stripFlag f = stripFlag f'
+
+/-- The same segment, every table independently absent or built. -/
+def SegmentFormEquiv (rx : RegexOracle) (s s' : Segment) : Prop :=
+  SegmentFormOK rx s ∧ SegmentFormOK rx s' ∧ stripSegment s = stripSegment s'
+
+/-- The same store: same lookup keys in the same order, the items pairwise the same configuration,
+every table of every item independently absent or built. -/
+def StoreFormEquiv (rx : RegexOracle) (st st' : Store) : Prop :=
+  StoreFormOK rx st ∧ StoreFormOK rx st' ∧ stripStore st = stripStore st'
+
+/-! #### The relation contains what it should -/
+
+theorem KeySetOK.none (vals : List String) : KeySetOK vals none := .inl rfl
+theorem KeySetOK.built (vals : List String) : KeySetOK vals (preprocessStringSet vals) := .inr rfl
+
+theorem ClauseFormOK.plain (c : Clause) (h : c.pre = {}) : ClauseFormOK rx c := by
+  constructor <;> (left; rw [h])
+
+theorem ClauseFormOK.built (c : Clause) :
+    ClauseFormOK rx { c with pre := preprocessClause rx c } := ⟨.inr rfl, .inr rfl⟩
+
+/-- A hand-built flag is `FormOK`. -/
+theorem FlagFormOK.of_plain {f : Flag} (hf : PlainFlag f) (hc : ∀ t ∈ f.contextTargets, t.pre = none) :
+    FlagFormOK rx f :=
+  ⟨fun t ht => .inl (hf.1 t ht), fun t ht => .inl (hc t ht),
+    fun r hr c hc => ClauseFormOK.plain rx c (hf.2 r hr c hc)⟩
+
+/-- A hand-built segment is `FormOK`. -/
+theorem SegmentFormOK.of_plain {s : Segment} (hs : PlainSegment s) : SegmentFormOK rx s := by
+  obtain ⟨⟨h1, h2, h3⟩, h4⟩ := hs
+  refine ⟨.inl (by rw [h1]), .inl (by rw [h1]), fun t ht => .inl (h2 t ht), fun t ht => .inl (h3 t ht),
+    fun r hr c hc => ClauseFormOK.plain rx c (h4 r hr c hc)⟩
+
+/-- What `PreprocessFlag` returns is `FormOK` (whatever tables the argument carried, the context
+targets apart, which `PreprocessFlag` does not touch). -/
+theorem FlagFormOK.preprocess {f : Flag} (hc : ∀ t ∈ f.contextTargets, KeySetOK t.values t.pre) :
+    FlagFormOK rx (preprocessFlag rx f) := by
+  refine ⟨?_, hc, ?_⟩
+  · intro t ht
+    simp only [preprocessFlag, List.mem_map] at ht
+    obtain ⟨t0, _, rfl⟩ := ht
+    exact .inr rfl
+  · intro r hr c hc
+    simp only [preprocessFlag, List.mem_map] at hr
+    obtain ⟨r0, _, rfl⟩ := hr
+    simp only [preprocessClauses, List.mem_map] at hc
+    obtain ⟨c0, _, rfl⟩ := hc
+    exact ClauseFormOK.built rx c0
+
+/-- What `PreprocessSegment` returns is `FormOK`, whatever tables the argument carried. -/
+theorem SegmentFormOK.preprocess (s : Segment) : SegmentFormOK rx (preprocessSegment rx s) := by
+  refine ⟨.inr rfl, .inr rfl, ?_, ?_, ?_⟩
+  · intro t ht
+    simp only [preprocessSegment, List.mem_map] at ht
+    obtain ⟨t0, _, rfl⟩ := ht
+    exact .inr rfl
+  · intro t ht
+    simp only [preprocessSegment, List.mem_map] at ht
+    obtain ⟨t0, _, rfl⟩ := ht
+    exact .inr rfl
+  · intro r hr c hc
+    simp only [preprocessSegment, List.mem_map] at hr
+    obtain ⟨r0, _, rfl⟩ := hr
+    simp only [preprocessClauses, List.mem_map] at hc
+    obtain ⟨c0, _, rfl⟩ := hc
+    exact ClauseFormOK.built rx c0
+
+theorem stripFlag_preprocess (f : Flag) : stripFlag (preprocessFlag rx f) = stripFlag f := by
+  simp [stripFlag, preprocessFlag, preprocessClauses, List.map_map, Function.comp_def]
+
+theorem stripSegment_preprocess (s : Segment) :
+    stripSegment (preprocessSegment rx s) = stripSegment s := by
+  simp [stripSegment, preprocessSegment, preprocessClauses, List.map_map, Function.comp_def]
+
+/-- A flag and its preprocessed form are the same configuration. -/
+theorem FlagFormEquiv.preprocess {f : Flag} (hf : FlagFormOK rx f) :
+    FlagFormEquiv rx f (preprocessFlag rx f) :=
+  ⟨hf, FlagFormOK.preprocess rx hf.2.1, (stripFlag_preprocess rx f).symm⟩
+
+/-- A segment and its preprocessed form are the same configuration. -/
+theorem SegmentFormEquiv.preprocess {s : Segment} (hs : SegmentFormOK rx s) :
+    SegmentFormEquiv rx s (preprocessSegment rx s) :=
+  ⟨hs, SegmentFormOK.preprocess rx s, (stripSegment_preprocess rx s).symm⟩
+
+theorem FlagFormEquiv.symm {f f' : Flag} (h : FlagFormEquiv rx f f') : FlagFormEquiv rx f' f :=
+  ⟨h.2.1, h.1, h.2.2.symm⟩
+theorem FlagFormEquiv.trans {f g h : Flag} (h1 : FlagFormEquiv rx f g) (h2 : FlagFormEquiv rx g h) :
+    FlagFormEquiv rx f h := ⟨h1.1, h2.2.1, h1.2.2.trans h2.2.2⟩
+theorem StoreFormEquiv.symm {s s' : Store} (h : StoreFormEquiv rx s s') : StoreFormEquiv rx s' s :=
+  ⟨h.2.1, h.1, h.2.2.symm⟩
+theorem StoreFormEquiv.trans {s t u : Store} (h1 : StoreFormEquiv rx s t)
+    (h2 : StoreFormEquiv rx t u) : StoreFormEquiv rx s u := ⟨h1.1, h2.2.1, h1.2.2.trans h2.2.2⟩
+
+/-- **Mixed stores.**  Preprocessing an ARBITRARY subset of the flags (those whose lookup key
+satisfies `p`) and an arbitrary subset of the segments (`q`) of a `FormOK` store — e.g. of a
+hand-built one — gives a `FormEquiv` store. -/
+theorem StoreFormEquiv.preprocess_subset {st : Store} (hst : StoreFormOK rx st)
+    (p q : String → Bool) :
+    StoreFormEquiv rx st
+      { flags := st.flags.map fun e => (e.1, if p e.1 then preprocessFlag rx e.2 else e.2),
+        segments := st.segments.map fun e =>
+          (e.1, if q e.1 then preprocessSegment rx e.2 else e.2) } := by
+  refine ⟨hst, ⟨?_, ?_⟩, ?_⟩
+  · intro f hf
+    simp only [List.map_map, List.mem_map, Function.comp] at hf
+    obtain ⟨e, he, rfl⟩ := hf
+    have h0 : FlagFormOK rx e.2 := hst.1 e.2 (List.mem_map.mpr ⟨e, he, rfl⟩)
+    split
+    · exact FlagFormOK.preprocess rx h0.2.1
+    · exact h0
+  · intro s hs
+    simp only [List.map_map, List.mem_map, Function.comp] at hs
+    obtain ⟨e, he, rfl⟩ := hs
+    split
+    · exact SegmentFormOK.preprocess rx e.2
+    · exact hst.2 e.2 (List.mem_map.mpr ⟨e, he, rfl⟩)
+  · simp only [stripStore, List.map_map]
+    congr 1
+    · apply List.map_congr_left
+      intro e _
+      simp only [Function.comp]
+      split
+      · rw [stripFlag_preprocess]
+      · rfl
+    · apply List.map_congr_left
+      intro e _
+      simp only [Function.comp]
+      split
+      · rw [stripSegment_preprocess]
+      · rfl
+
+/-! ### B. A `FormOK` item evaluates like the same item with every table removed -/
+
+theorem findKey_formOK (key : String) (vals : List String) (tbl : Option (List String))
+    (h : KeySetOK vals tbl) : findKey key vals none = findKey key vals tbl := by
+  rcases h with h | h
+  · rw [h]
+  · rw [h, findKey_transparent]
+
+theorem findValue_strip (c : Clause) (h : ClauseFormOK rx c) (v : J) :
+    ({ c with pre := {} }).findValue v = c.findValue v := by
+  rw [findValue_plain { c with pre := {} } rfl]
+  rcases h.2 with h2 | h2
+  · exact (findValue_plain c h2 v).symm
+  · rcases preprocessClause_valuesMap rx c with h3 | ⟨h3, hall⟩
+    · exact (findValue_plain c (h2.trans h3) v).symm
+    · exact (findValue_table c (h2.trans h3) hall v).symm
+
+theorem valueAsRegexp_strip (c : Clause) (h : ClauseFormOK rx c) (hop : c.op = "matches") (i : Nat) :
+    ({ c with pre := {} }).valueAsRegexp rx i = c.valueAsRegexp rx i := by
+  rcases h.1 with h1 | h1
+  · unfold Clause.valueAsRegexp
+    rw [h1]
+  · have := valueAsRegexp_transparent rx c hop i
+    unfold Clause.valueAsRegexp at this ⊢
+    rw [h1]
+    exact this.symm
+
+theorem valueAsTimestamp_strip (c : Clause) (h : ClauseFormOK rx c)
+    (hop : c.op = "before" ∨ c.op = "after") (i : Nat) :
+    ({ c with pre := {} }).valueAsTimestamp i = c.valueAsTimestamp i := by
+  rcases h.1 with h1 | h1
+  · unfold Clause.valueAsTimestamp
+    rw [h1]
+  · have := valueAsTimestamp_transparent rx c hop i
+    unfold Clause.valueAsTimestamp at this ⊢
+    rw [h1]
+    exact this.symm
+
+theorem valueAsSemVer_strip (c : Clause) (h : ClauseFormOK rx c)
+    (hop : c.op = "semVerEqual" ∨ c.op = "semVerLessThan" ∨ c.op = "semVerGreaterThan") (i : Nat) :
+    ({ c with pre := {} }).valueAsSemVer i = c.valueAsSemVer i := by
+  rcases h.1 with h1 | h1
+  · unfold Clause.valueAsSemVer
+    rw [h1]
+  · have := valueAsSemVer_transparent rx c hop i
+    unfold Clause.valueAsSemVer at this ⊢
+    rw [h1]
+    exact this.symm
+
+theorem doOp_strip (c : Clause) (h : ClauseFormOK rx c) (u cv : J) (i : Nat) :
+    doOp rx { c with pre := {} } u cv i = doOp rx c u cv i :=
+  doOp_congr rx _ _ u cv i rfl
+    (fun hop => valueAsRegexp_strip rx c h hop i)
+    (fun hop => valueAsTimestamp_strip rx c h hop i)
+    (fun hop => valueAsSemVer_strip rx c h hop i)
+
+theorem matchAny_strip (c : Clause) (h : ClauseFormOK rx c) (u : J) :
+    matchAny rx { c with pre := {} } u = matchAny rx c u := by
+  unfold matchAny
+  simp only [findValue_strip rx c h u]
+  have : (fun cv i => doOp rx { c with pre := {} } u cv i) = (fun cv i => doOp rx c u cv i) := by
+    funext cv i; exact doOp_strip rx c h u cv i
+  rw [this]
+
+/-- A clause whose tables are each absent or built matches exactly like the clause without tables. -/
+theorem clause_strip (c : Clause) (h : ClauseFormOK rx c) (ctx : Ctx) :
+    clauseMatchNoSeg rx ctx { c with pre := {} } = clauseMatchNoSeg rx ctx c := by
+  have hm : matchAny rx { c with pre := {} } = matchAny rx c := funext (matchAny_strip rx c h)
+  unfold clauseMatchNoSeg clauseMatchByKind
+  simp only [hm]
+
+theorem targetMatch_strip (ctx : Ctx) (t : Target) (h : KeySetOK t.values t.pre) :
+    targetMatch ctx { t with pre := none } = targetMatch ctx t := by
+  unfold targetMatch Target.findKey
+  cases ctx.byKind t.contextKind with
+  | none => rfl
+  | some sc => simp only [findKey_formOK sc.key t.values t.pre h]
+
+theorem segTargetMatch_strip (ctx : Ctx) (t : SegmentTarget) (h : KeySetOK t.values t.pre) :
+    segTargetMatch ctx { t with pre := none } = segTargetMatch ctx t := by
+  unfold segTargetMatch SegmentTarget.findKey
+  cases ctx.keyByKind t.contextKind with
+  | none => rfl
+  | some k => exact findKey_formOK k t.values t.pre h
+
+theorem any_congr_mem {α} (l : List α) (p q : α → Bool) (h : ∀ a ∈ l, p a = q a) :
+    l.any p = l.any q := by
+  induction l with
+  | nil => rfl
+  | cons a l ih =>
+    simp only [List.any_cons, h a (by simp), ih (fun b hb => h b (by simp [hb]))]
+
+theorem segLists_strip (s : Segment) (hs : SegmentFormOK rx s) (ctx : Ctx) :
+    segLists ctx (stripSegment s) = segLists ctx s := by
+  obtain ⟨h1, h2, h3, h4, _⟩ := hs
+  apply segLists_congr
+  · intro k; exact findKey_formOK k s.included _ h1
+  · intro k; exact findKey_formOK k s.excluded _ h2
+  · simp only [stripSegment, List.any_map]
+    exact any_congr_mem _ _ _ (fun t ht => segTargetMatch_strip ctx t (h3 t ht))
+  · simp only [stripSegment, List.any_map]
+    exact any_congr_mem _ _ _ (fun t ht => segTargetMatch_strip ctx t (h4 t ht))
+
+theorem anyTargetMatch_strip (f : Flag) (hf : FlagFormOK rx f) (ctx : Ctx) :
+    anyTargetMatch ctx (stripFlag f) = anyTargetMatch ctx f := by
+  have hsome : ∀ (l : List Target), (∀ t ∈ l, KeySetOK t.values t.pre) →
+      (l.map fun t => ({ t with pre := none } : Target)).findSome? (targetMatch ctx) =
+        l.findSome? (targetMatch ctx) := by
+    intro l hl
+    induction l with
+    | nil => rfl
+    | cons a l ih =>
+      simp only [List.map_cons, List.findSome?_cons,
+        targetMatch_strip ctx a (hl a (by simp)), ih (fun t ht => hl t (by simp [ht]))]
+  have hfind : ∀ (v : Int),
+      ((f.targets.map fun t => ({ t with pre := none } : Target)).find?
+          (fun t1 => t1.variation == v)) =
+        (f.targets.find? (fun t1 => t1.variation == v)).map (fun t => { t with pre := none }) := by
+    intro v; rw [List.find?_map]; rfl
+  have e1 : (stripFlag f).contextTargets = f.contextTargets.map fun t => { t with pre := none } := rfl
+  have e2 : (stripFlag f).targets = f.targets.map fun t => { t with pre := none } := rfl
+  unfold anyTargetMatch
+  rw [e1, e2]
+  by_cases hE : f.contextTargets.isEmpty = true
+  · have hE' : (f.contextTargets.map fun t => ({ t with pre := none } : Target)).isEmpty = true := by
+      rw [List.isEmpty_map]; exact hE
+    rw [if_pos hE, if_pos hE']; exact hsome _ hf.1
+  · have hE' : ¬ (f.contextTargets.map fun t => ({ t with pre := none } : Target)).isEmpty = true := by
+      rw [List.isEmpty_map]; exact hE
+    rw [if_neg hE, if_neg hE']
+    have hgen : ∀ (l : List Target), (∀ t ∈ l, KeySetOK t.values t.pre) →
+        (l.map fun t => ({ t with pre := none } : Target)).findSome? (fun t =>
+          if (t.contextKind == "" || t.contextKind == defaultKind) && t.values.isEmpty then
+            match (f.targets.map fun t => ({ t with pre := none } : Target)).find?
+                (fun t1 => t1.variation == t.variation) with
+            | some t1 => targetMatch ctx t1
+            | none => none
+          else targetMatch ctx t) =
+        l.findSome? (fun t =>
+          if (t.contextKind == "" || t.contextKind == defaultKind) && t.values.isEmpty then
+            match f.targets.find? (fun t1 => t1.variation == t.variation) with
+            | some t1 => targetMatch ctx t1
+            | none => none
+          else targetMatch ctx t) := by
+      intro l hl
+      induction l with
+      | nil => rfl
+      | cons a l ih =>
+        have ha : (if (a.contextKind == "" || a.contextKind == defaultKind) && a.values.isEmpty then
+              match (f.targets.map fun t => ({ t with pre := none } : Target)).find?
+                  (fun t1 => t1.variation == a.variation) with
+              | some t1 => targetMatch ctx t1
+              | none => none
+            else targetMatch ctx { a with pre := none }) =
+            (if (a.contextKind == "" || a.contextKind == defaultKind) && a.values.isEmpty then
+              match f.targets.find? (fun t1 => t1.variation == a.variation) with
+              | some t1 => targetMatch ctx t1
+              | none => none
+            else targetMatch ctx a) := by
+          split
+          · rw [hfind a.variation]
+            cases h : List.find? (fun t1 => t1.variation == a.variation) f.targets with
+            | none => rfl
+            | some b =>
+              exact targetMatch_strip ctx b (hf.1 b (List.mem_of_find?_eq_some h))
+          · exact targetMatch_strip ctx a (hl a (by simp))
+        simp only [List.map_cons, List.findSome?_cons]
+        rw [ha, ih (fun t ht => hl t (by simp [ht]))]
+    exact hgen _ hf.2.1
+
+/-! ### C. Whole evaluations against a stripped store (code-shaped model, every side channel) -/
+
+/-- The same environment with every table of every stored item removed. -/
+def stripEnv (env : Env) : Env := { env with store := stripStore env.store }
+
+theorem findSegment_strip (st : Store) (k : String) :
+    (stripStore st).findSegment k = (st.findSegment k).map stripSegment := by
+  unfold Store.findSegment stripStore
+  rw [List.find?_map, Option.map_map, Option.map_map]; rfl
+
+theorem findFlag_strip (st : Store) (k : String) :
+    (stripStore st).findFlag k = (st.findFlag k).map stripFlag := by
+  unfold Store.findFlag stripStore
+  rw [List.find?_map, Option.map_map, Option.map_map]; rfl
+
+section modelStrip
+variable (env : Env) (rec rec' : SegRec)
+  (hrec : ∀ seg ∈ env.store.segments.map (·.2), ∀ chain st,
+    rec' (stripSegment seg) chain st = rec seg chain st)
+include hrec
+
+theorem segMatchValues_strip (negate : Bool) (chain : List String) (vs : List J) (st : St) :
+    segMatchValues rec' (stripEnv env) negate chain vs st =
+      segMatchValues rec env negate chain vs st := by
+  induction vs generalizing st with
+  | nil => rfl
+  | cons v vs ih =>
+    cases v with
+    | str k =>
+      have hf : (stripEnv env).store.findSegment k = (env.store.findSegment k).map stripSegment :=
+        findSegment_strip env.store k
+      simp only [segMatchValues, hf]
+      cases hs : env.store.findSegment k with
+      | none => simp only [Option.map_none, ih]
+      | some seg =>
+        simp only [Option.map_some, hrec seg (Store.findSegment_mem hs), ih]
+    | null => simp only [segMatchValues, ih]
+    | bool b => simp only [segMatchValues, ih]
+    | num q => simp only [segMatchValues, ih]
+    | arr xs => simp only [segMatchValues, ih]
+    | obj kvs => simp only [segMatchValues, ih]
+    | raw w => simp only [segMatchValues, ih]
+
+theorem clauseMatch_strip (chain : List String) (c : Clause) (hc : ClauseFormOK env.rx c) (st : St) :
+    clauseMatch rec' (stripEnv env) chain { c with pre := {} } st =
+      clauseMatch rec env chain c st := by
+  have h2 : clauseMatchNoSeg (stripEnv env).rx (stripEnv env).ctx { c with pre := {} } =
+      clauseMatchNoSeg env.rx env.ctx c := clause_strip env.rx c hc env.ctx
+  unfold clauseMatch
+  simp only [h2, segMatchValues_strip env rec rec' hrec]
+
+theorem clausesMatch_strip (chain : List String) (cs : List Clause)
+    (hcs : ∀ c ∈ cs, ClauseFormOK env.rx c) (st : St) :
+    clausesMatch rec' (stripEnv env) chain (cs.map fun c => { c with pre := {} }) st =
+      clausesMatch rec env chain cs st := by
+  induction cs generalizing st with
+  | nil => rfl
+  | cons c cs ih =>
+    have ih' := fun st => ih (fun c hc => hcs c (by simp [hc])) st
+    simp only [List.map_cons, clausesMatch,
+      clauseMatch_strip env rec rec' hrec chain c (hcs c (by simp)), ih']
+
+theorem segRuleMatch_strip (chain : List String) (key salt : String) (r : SegmentRule)
+    (hr : ∀ c ∈ r.clauses, ClauseFormOK env.rx c) (st : St) :
+    segRuleMatch rec' (stripEnv env) chain key salt
+        { r with clauses := r.clauses.map fun c => { c with pre := {} } } st =
+      segRuleMatch rec env chain key salt r st := by
+  unfold segRuleMatch
+  simp only [clausesMatch_strip env rec rec' hrec chain r.clauses hr]
+  rfl
+
+theorem segRules_strip (chain : List String) (s s' : Segment) (hk : s'.key = s.key)
+    (hsalt : s'.salt = s.salt) (rs : List SegmentRule)
+    (hrs : ∀ r ∈ rs, ∀ c ∈ r.clauses, ClauseFormOK env.rx c) (st : St) :
+    segRules rec' (stripEnv env) chain s'
+        (rs.map fun r => { r with clauses := r.clauses.map fun c => { c with pre := {} } }) st =
+      segRules rec env chain s rs st := by
+  induction rs generalizing st with
+  | nil => rfl
+  | cons r rs ih =>
+    have ih' := fun st => ih (fun r hr => hrs r (by simp [hr])) st
+    simp only [List.map_cons, segRules, hk, hsalt,
+      segRuleMatch_strip env rec rec' hrec chain s.key s.salt r (hrs r (by simp)), ih']
+
+theorem segBody_strip (s : Segment) (hs : SegmentFormOK env.rx s) (chain : List String) (st : St) :
+    segBody rec' (stripEnv env) (stripSegment s) chain st = segBody rec env s chain st := by
+  have hl : segLists (stripEnv env).ctx (stripSegment s) = segLists env.ctx s :=
+    segLists_strip env.rx s hs env.ctx
+  have hr : ∀ chain' st, segRules rec' (stripEnv env) chain' (stripSegment s)
+      (stripSegment s).rules st = segRules rec env chain' s s.rules st :=
+    fun chain' st => segRules_strip env rec rec' hrec chain' s (stripSegment s) rfl rfl
+      s.rules hs.2.2.2.2 st
+  unfold segBody
+  simp only [hl, hr]
+  rfl
+
+end modelStrip
+
+theorem segContains_strip (env : Env) (hst : StoreFormOK env.rx env.store) (n : Nat) :
+    ∀ s, SegmentFormOK env.rx s → ∀ chain st,
+      segContains n (stripEnv env) (stripSegment s) chain st = segContains n env s chain st := by
+  induction n with
+  | zero => intro s _ chain st; rfl
+  | succ n ih =>
+    intro s hs chain st
+    exact segBody_strip env (segContains n env) (segContains n (stripEnv env))
+      (fun seg hseg chain st => ih seg (hst.2 seg hseg) chain st) s hs chain st
+
+theorem isExperimentResult_strip (f : Flag) (r : Reason) :
+    isExperimentResult (stripFlag f) r = isExperimentResult f r := by
+  have hrules : (stripFlag f).rules =
+      f.rules.map fun r => { r with clauses := r.clauses.map fun c => { c with pre := {} } } := rfl
+  have ht : (stripFlag f).trackEventsFallthrough = f.trackEventsFallthrough := rfl
+  unfold isExperimentResult
+  simp only [hrules, ht, List.getElem?_map]
+  cases f.rules[r.ruleIndex.toNat]? <;> rfl
+
+section flagsStrip
+variable (env : Env) (seg seg' : SegRec)
+  (hseg : ∀ s ∈ env.store.segments.map (·.2), ∀ chain st,
+    seg' (stripSegment s) chain st = seg s chain st)
+  (rec rec' : FlagRec)
+  (hrec : ∀ pf ∈ env.store.flags.map (·.2), ∀ chain st,
+    rec' (stripFlag pf) chain st = rec pf chain st)
+
+include hrec in
+theorem prereqLoop_strip (f : Flag) (chain : List String) (ps : List Prereq) (st : St) :
+    prereqLoop rec' (stripEnv env) (stripFlag f) chain ps st =
+      prereqLoop rec env f chain ps st := by
+  induction ps generalizing st with
+  | nil => rfl
+  | cons p ps ih =>
+    have hf : (stripEnv env).store.findFlag p.key = (env.store.findFlag p.key).map stripFlag :=
+      findFlag_strip env.store p.key
+    simp only [prereqLoop, hf]
+    cases hs : env.store.findFlag p.key with
+    | none => rfl
+    | some pf =>
+      simp only [Option.map_some, hrec pf (Store.findFlag_mem hs), ih, isExperimentResult_strip]
+      rfl
+
+include hrec in
+theorem checkPrereqs_strip (f : Flag) (chain : List String) (st : St) :
+    checkPrereqs rec' (stripEnv env) (stripFlag f) chain st = checkPrereqs rec env f chain st := by
+  unfold checkPrereqs
+  simp only [prereqLoop_strip env rec rec' hrec]
+  rfl
+
+include hseg in
+theorem rulesLoop_strip (f : Flag) (rs : List FlagRule)
+    (hrs : ∀ r ∈ rs, ∀ c ∈ r.clauses, ClauseFormOK env.rx c) (i : Nat) (st : St) :
+    rulesLoop seg' (stripEnv env) (stripFlag f)
+        (rs.map fun r => { r with clauses := r.clauses.map fun c => { c with pre := {} } }) i st =
+      rulesLoop seg env f rs i st := by
+  induction rs generalizing i st with
+  | nil => rfl
+  | cons r rs ih =>
+    have ih' := fun i st => ih (fun r hr => hrs r (by simp [hr])) i st
+    simp only [List.map_cons, rulesLoop,
+      clausesMatch_strip env seg seg' hseg [] r.clauses (hrs r (by simp)), ih']
+    rfl
+
+include hseg hrec in
+theorem evalBody_strip (f : Flag) (hf : FlagFormOK env.rx f) (chain : List String) (st : St) :
+    evalBody rec' seg' (stripEnv env) (stripFlag f) chain st = evalBody rec seg env f chain st := by
+  have ht : anyTargetMatch (stripEnv env).ctx (stripFlag f) = anyTargetMatch env.ctx f :=
+    anyTargetMatch_strip env.rx f hf env.ctx
+  have hr := rulesLoop_strip env seg seg' hseg f f.rules hf.2.2 0
+  have hrules : (stripFlag f).rules =
+      f.rules.map fun r => { r with clauses := r.clauses.map fun c => { c with pre := {} } } := rfl
+  unfold evalBody
+  simp only [checkPrereqs_strip env rec rec' hrec, ht, hrules, hr]
+  rfl
+
+end flagsStrip
+
+theorem evalFlag_strip (env : Env) (hst : StoreFormOK env.rx env.store) (sf n : Nat) :
+    ∀ f, FlagFormOK env.rx f → ∀ chain st,
+      evalFlag sf n (stripEnv env) (stripFlag f) chain st = evalFlag sf n env f chain st := by
+  induction n with
+  | zero => intro f _ chain st; rfl
+  | succ n ih =>
+    intro f hf chain st
+    exact evalBody_strip env (segContains sf env) (segContains sf (stripEnv env))
+      (fun s hs chain st => segContains_strip env hst sf s (hst.2 s hs) chain st)
+      (evalFlag sf n env) (evalFlag sf n (stripEnv env))
+      (fun pf hpf chain st => ih pf (hst.1 pf hpf) chain st) f hf chain st
+
+theorem fuel_strip (st : Store) :
+    flagFuel (stripStore st) = flagFuel st ∧ segFuel (stripStore st) = segFuel st := by
+  unfold flagFuel segFuel stripStore
+  simp only [List.map_map]
+  exact ⟨rfl, rfl⟩
+
+/-- Removing every table of every stored item and of the evaluated flag changes nothing that can be
+observed about the call, provided each table was absent or what preprocessing builds. -/
+theorem evaluate_strip (env : Env) (hst : StoreFormOK env.rx env.store) (f : Flag)
+    (hf : FlagFormOK env.rx f) : evaluate (stripEnv env) (stripFlag f) = evaluate env f := by
+  have hE : evalFlag (segFuel (stripEnv env).store) (flagFuel (stripEnv env).store) (stripEnv env)
+      (stripFlag f) [] {} =
+      evalFlag (segFuel env.store) (flagFuel env.store) env f [] {} := by
+    have h := fuel_strip env.store
+    show evalFlag (segFuel (stripStore env.store)) (flagFuel (stripStore env.store)) _ _ _ _ = _
+    rw [h.1, h.2]
+    exact evalFlag_strip env hst _ _ f hf [] {}
+  unfold evaluate
+  simp only [hE, isExperimentResult_strip]
+  rfl
+
+/-- **Preprocessing is transparent, item by item (audit #47).**  Two stores holding the same
+configuration under the same lookup keys, and two forms of the same flag, where EVERY lookup table
+of every flag, segment, target and clause is independently either absent or what `PreprocessFlag` /
+`PreprocessSegment` build — so any mixture of hand-built, decoded, builder-made and explicitly
+preprocessed items — give exactly the same observation: value, index, reason with big-segments
+status, experiment bit, prerequisite events, log lines, store lookups, big-segment queries and
+membership checks.  For the Go code: an evaluation can never tell which of the items it touches
+went through `PreprocessFlag` / `PreprocessSegment`. -/
+theorem evaluate_formEquiv (env : Env) {st st' : Store} {f f' : Flag}
+    (hs : StoreFormEquiv env.rx st st') (hf : FlagFormEquiv env.rx f f') :
+    evaluate { env with store := st' } f' = evaluate { env with store := st } f := by
+  have h1 := evaluate_strip { env with store := st } hs.1 f hf.1
+  have h2 := evaluate_strip { env with store := st' } hs.2.1 f' hf.2.1
+  rw [← h1, ← h2]
+  show evaluate { env with store := stripStore st' } (stripFlag f') =
+    evaluate { env with store := stripStore st } (stripFlag f)
+  rw [hs.2.2, hf.2.2]
+
+/-- The segment-level counterpart, for any fuel and any incoming state (cache, status, side
+channels): membership of a context in two forms of the same segment against two forms of the same
+store is decided identically, with identical effects on the per-call state. -/
+theorem segContains_formEquiv (env : Env) {st st' : Store} {s s' : Segment}
+    (hs : StoreFormEquiv env.rx st st') (hseg : SegmentFormEquiv env.rx s s') (n : Nat)
+    (chain : List String) (σ : St) :
+    segContains n { env with store := st' } s' chain σ =
+      segContains n { env with store := st } s chain σ := by
+  have h1 := segContains_strip { env with store := st } hs.1 n s hseg.1 chain σ
+  have h2 := segContains_strip { env with store := st' } hs.2.1 n s' hseg.2.1 chain σ
+  rw [← h1, ← h2]
+  show segContains n { env with store := stripStore st' } (stripSegment s') chain σ =
+    segContains n { env with store := stripStore st } (stripSegment s) chain σ
+  rw [hs.2.2, hseg.2.2]
+
+/-- `evaluate_transparent` is the all-or-nothing instance. -/
+theorem evaluate_mixed (env : Env) (hst : StoreFormOK env.rx env.store) (f : Flag)
+    (hf : FlagFormOK env.rx f) (p q : String → Bool) (b : Bool) :
+    evaluate { env with store :=
+        { flags := env.store.flags.map fun e => (e.1, if p e.1 then preprocessFlag env.rx e.2 else e.2),
+          segments := env.store.segments.map fun e =>
+            (e.1, if q e.1 then preprocessSegment env.rx e.2 else e.2) } }
+      (if b then preprocessFlag env.rx f else f) = evaluate env f := by
+  have hs := StoreFormEquiv.preprocess_subset env.rx hst p q
+  have hf' : FlagFormEquiv env.rx f (if b then preprocessFlag env.rx f else f) := by
+    cases b
+    · exact ⟨hf, hf, rfl⟩
+    · exact FlagFormEquiv.preprocess env.rx hf
+  exact evaluate_formEquiv env hs hf'
+
+/-! ### D. Non-vacuity on a non-empty store (audit #48)
+
+A store with a prerequisite flag and a segment, and an evaluated flag, which between them carry a
+clause of every table kind (compiled regexps, parsed timestamps, parsed versions, the `in`
+equality set), a user-target key set, the two key sets of a segment and the key sets of its
+context lists.  The context is chosen so that the evaluation actually consults every table. -/
+
+namespace Ex48
+
+/-- A toy regular-expression oracle: `(` does not compile, every other pattern matches itself. -/
+def rxEx : RegexOracle := fun p s => if p = "(" then none else some (p == s)
+
+def ref (s : String) : Ref := { raw := s, single := s }
+
+def cRegex : Clause := { attr := ref "name", op := "matches", values := [.str "(", .str "bob"] }
+def cTime : Clause := { attr := ref "t", op := "before", values := [.str "x", .num 5] }
+def cSem : Clause := { attr := ref "v", op := "semVerEqual", values := [.num 1, .str "1.2.3"] }
+def cIn : Clause := { attr := ref "a", op := "in", values := [.num 1, .str "1"] }
+def cSeg : Clause := { op := "segmentMatch", values := [.str "s"] }
+
+def seg : Segment :=
+  { key := "s", included := ["zz"], excluded := ["yy"],
+    includedContexts := [{ contextKind := "org", values := ["o1"] }],
+    excludedContexts := [{ contextKind := "org", values := ["o2"] }],
+    rules := [{ clauses := [cRegex, cIn] }] }
+
+def pflag : Flag :=
+  { key := "p", on := true, variations := [.bool false, .bool true],
+    targets := [{ values := ["nobody"], variation := 0 }],
+    rules := [{ clauses := [cTime, cSem], vr := { variation := some 1 } }],
+    fallthrough := { variation := some 0 } }
+
+def flag : Flag :=
+  { key := "f", on := true, prerequisites := [⟨"p", 1⟩], variations := [.str "no", .str "yes"],
+    targets := [{ values := ["k1", "k2"], variation := 0 }],
+    rules := [{ clauses := [cIn, cRegex, cTime, cSem, cSeg], vr := { variation := some 1 } }],
+    fallthrough := { variation := some 0 } }
+
+def store : Store := Store.ofLists [pflag] [seg]
+
+def ctx : Ctx :=
+  .single { kind := "user", key := "u", name := some "bob",
+            attrs := [("t", .num 1), ("v", .str "1.2.3"), ("a", .str "1")] }
+
+def env : Env := { opts := { logger := true }, store := store, bs := none, ctx := ctx, rx := rxEx }
+
+/-- Every table kind is really built by preprocessing these items. -/
+example :
+    (preprocessClause rxEx cRegex).values =
+      some [{ valid := false }, { valid := true, regex := some "bob" }] ∧
+    (preprocessClause rxEx cIn).valuesMap = some [.num 1, .str "1"] ∧
+    ((preprocessClause rxEx cTime).values.map fun l => l.map (·.valid)) = some [false, true] ∧
+    ((preprocessClause rxEx cSem).values.map fun l => l.map (·.valid)) = some [false, true] ∧
+    ((preprocessFlag rxEx flag).targets.map (·.pre)) = [some ["k1", "k2"]] ∧
+    (preprocessSegment rxEx seg).pre = { includeMap := some ["zz"], excludeMap := some ["yy"] } ∧
+    ((preprocessSegment rxEx seg).includedContexts.map (·.pre)) = [some ["o1"]] ∧
+    ((preprocessSegment rxEx seg).excludedContexts.map (·.pre)) = [some ["o2"]] := by
+  refine ⟨?_, ?_, ?_, ?_, rfl, rfl, rfl, rfl⟩
+  · simp [preprocessClause, cRegex, parseRegexp, rxEx, J.unraw]
+  · simp [preprocessClause, cIn, asPrimKey, PrimKey.isValid]
+  · decide +kernel
+  · decide +kernel
+
+theorem plainFlag_flag : PlainFlag flag := by
+  constructor
+  · intro t ht; simp [flag] at ht; subst ht; rfl
+  · intro r hr c hc
+    simp [flag] at hr; subst hr
+    simp at hc
+    rcases hc with rfl | rfl | rfl | rfl | rfl <;> rfl
+
+theorem plainStore_store : PlainStore store := by
+  constructor
+  · intro f hf
+    simp [store, Store.ofLists] at hf; subst hf
+    constructor
+    · intro t ht; simp [pflag] at ht; subst ht; rfl
+    · intro r hr c hc
+      simp [pflag] at hr; subst hr
+      simp at hc
+      rcases hc with rfl | rfl <;> rfl
+  · intro s hs
+    simp [store, Store.ofLists] at hs; subst hs
+    refine ⟨⟨rfl, ?_, ?_⟩, ?_⟩
+    · intro t ht; simp [seg] at ht; subst ht; rfl
+    · intro t ht; simp [seg] at ht; subst ht; rfl
+    · intro r hr c hc
+      simp [seg] at hr; subst hr
+      simp at hc
+      rcases hc with rfl | rfl <;> rfl
+
+/-- The hypotheses of `evaluate_transparent` hold of this non-empty store … -/
+example : evaluate (preEnv env) (preprocessFlag rxEx flag) = evaluate env flag :=
+  evaluate_transparent env plainStore_store flag plainFlag_flag
+
+theorem storeFormOK_store : StoreFormOK rxEx store :=
+  ⟨fun f hf => FlagFormOK.of_plain rxEx (plainStore_store.1 f hf) (by
+      simp [store, Store.ofLists] at hf; subst hf; intro t ht; simp [pflag] at ht),
+   fun s hs => SegmentFormOK.of_plain rxEx (plainStore_store.2 s hs)⟩
+
+theorem flagFormOK_flag : FlagFormOK rxEx flag :=
+  FlagFormOK.of_plain rxEx plainFlag_flag (by intro t ht; simp [flag] at ht)
+
+/-- … and of `evaluate_formEquiv` in a genuinely mixed case: the segment is preprocessed, the
+prerequisite flag and the evaluated flag stay hand-built. -/
+example :
+    evaluate { env with store := Store.ofLists [pflag] [preprocessSegment rxEx seg] } flag =
+      evaluate env flag :=
+  evaluate_mixed env storeFormOK_store flag flagFormOK_flag (fun _ => false) (fun _ => true) false
+
+/-- … and the other way round: flags preprocessed, the segment hand-built. -/
+example :
+    evaluate { env with store := Store.ofLists [preprocessFlag rxEx pflag] [seg] }
+        (preprocessFlag rxEx flag) = evaluate env flag :=
+  evaluate_mixed env storeFormOK_store flag flagFormOK_flag (fun _ => true) (fun _ => false) true
+
+/-- The evaluation is not a degenerate one: the prerequisite is evaluated and satisfied (its rule
+uses the timestamp and version tables), no target matches, and the rule — all five clauses, the
+segment reference included (the segment's rule uses the regexp and `in` tables) — matches. -/
+example :
+    (evaluate env flag).result.detail.index = some 1 ∧
+    (evaluate env flag).result.detail.reason.kind = .ruleMatch ∧
+    (evaluate env flag).events.length = 1 ∧
+    (evaluate env flag).segLookups = ["s"] ∧ (evaluate env flag).logs = [] := by
+  decide +kernel
+
+end Ex48
+
+#print axioms evaluate_strip
+#print axioms evaluate_formEquiv
+#print axioms segContains_formEquiv
+#print axioms evaluate_mixed
+#print axioms StoreFormEquiv.preprocess_subset
+
 end LD.C14
